@@ -106,6 +106,9 @@ func (vm *VM) modelGlobal(g *ssa.Global, elem types.Type) (Value, bool) {
 	if it, ok := elem.Underlying().(*types.Interface); ok {
 		_ = it
 		name := path + "." + g.Name()
+		if path == "os" && strings.HasPrefix(g.Name(), "Err") {
+			name = "io/fs." + g.Name() // os.ErrNotExist etc. are the io/fs values
+		}
 		return IfaceV{Dyn: vm.synType("sentinel"), V: mkStr(name)}, true
 	}
 	// pointer-typed singletons (http.DefaultClient, time.UTC ...): distinct opaque objects
